@@ -46,6 +46,9 @@ def check_items(col, crate, sfx):
         impl = _impl_bodies(crate, nm, "SegtreeItem")
         names = sorted(k for k in impl if k != "__impl__")
         key = "%s|no-lazy-overrides" % nm
+        if "update" in impl:
+            _check_update(col, sfx, nm, impl["update"], fields)
+            names = [x for x in names if x != "update"]
         if names == ["merge"]:
             col.ok("R7" + sfx, "%s:%d" % (a["span"]["file"], a["span"]["line"]), key, "only merge is provided; modify/push are the no-op defaults", nontrivial=False)
         else:
@@ -57,6 +60,8 @@ def check_items(col, crate, sfx):
         for m in ("merge", "modify", "push"):
             if m not in impl:
                 raise Anchor("%s does not implement SegtreeItem::%s" % (nm, m))
+        if "update" in impl:
+            _check_update(col, sfx, nm, impl["update"], fields)
         # ---- push
         b = impl["push"]
         I = util.analyse(b)
@@ -205,6 +210,48 @@ def check_items(col, crate, sfx):
                 col.ok("R8" + sfx, b.loc(), key, "Combinator(U::from(v), V::from(v))")
             else:
                 col.violation("R8" + sfx, key, b.loc(), "Combinator::from must build (U::from(v), V::from(v))")
+
+
+def _check_update(col, sfx, nm, b, fields):
+    """an overriding SegtreeItem::update(&mut self, left, right) must leave self equal to merge(left, right):
+    either it stores that call's result into *self, or it rewrites every field from both children and resets
+    the pending modifier (the default is `*self = Self::merge(left, right)`, which does)"""
+    fk = util.fkey
+    I = util.analyse(b)
+    selfp = ("deref", ("param", 1, I.names.get(1)))
+    lp, rp = ("param", 2, I.names.get(2)), ("param", 3, I.names.get(3))
+
+    def under(t, p):
+        return any(s[0] == "load" and any(x == ("deref", p) for x in subterms(s[2])) for s in subterms(t))
+
+    for n, st in enumerate(I.final_states):
+        evs = st.event_list()
+        whole = [e for e in evs if e.kind == "store" and e.place == selfp]
+        key = "%s|equals-merge" % fk(b)
+        if whole and whole[-1].val[0] == "call" and str(whole[-1].val[1]).endswith("::merge") and tuple(whole[-1].val[2][:2]) == (lp, rp):
+            col.ok("R7" + sfx, b.loc(), key + "|%d" % n, "*self = merge(left, right)")
+            continue
+        last = {}
+        for e in evs:
+            if e.kind == "store" and e.place[0] == "field" and e.place[1] == selfp:
+                last[e.place[2]] = e.val
+            if e.kind == "call" and e.extra.get("name", "").endswith("_assign") and e.args and e.args[0][0] == "ref" and e.args[0][1][0] == "field" and e.args[0][1][1] == selfp:
+                last[e.args[0][1][2]] = ("stale",)
+        bad = []
+        facts = tuple(st.facts)
+        for i, f in enumerate(fields):
+            v = last.get(i)
+            if v is None:
+                bad.append("%s is left as it was" % f)
+            elif f == "md":
+                if not _is_default(v):
+                    bad.append("md is not reset to default()")
+            elif not ((under(v, lp) or any(under(x, lp) for x in facts)) and (under(v, rp) or any(under(x, rp) for x in facts))) or v == ("stale",):
+                bad.append("%s is not recomputed from both children" % f)
+        if bad:
+            col.violation("R7" + sfx, key, b.loc(), "%s overrides SegtreeItem::update but does not leave self equal to merge(left, right): %s (the tree relies on update to overwrite the node, pending modifier included)" % (nm, "; ".join(bad)))
+        else:
+            col.ok("R7" + sfx, b.loc(), key + "|%d" % n, "update rewrites every field from both children and resets md")
 
 
 def _is_default(t):
